@@ -13,7 +13,9 @@ TECHNIQUE = ("side-by-side differential oracle: wrapped step vs (unwrapped step,
 RULE = ("cases = (env, entry with short episodes, next_obs_in_extras flag, key, 40-step plan with illegal/raw actions and "
         "small time limits so that several episodes end); every wrapped step is compared with the reference composition "
         "of the unwrapped step and reset; the whole run is repeated as one jitted lax.scan and slices of it under vmap; "
-        "non-trivial = wrapper steps that cross an episode boundary, distinct by (env, entry, flag, key, boundary index)")
+        "non-trivial = wrapper steps that cross an episode boundary, distinct by (env, entry, flag, key, boundary index); "
+        "sweep batches (counters sweep_*) compare 10^2..2*10^3 scripted-policy runs per env with the reference "
+        "composition on the device and re-judge mismatching runs on the host")
 ASSUMPTIONS = [
     "'freshly derived key' = one of split(key)[0], split(key)[1], fold_in(key, 0|1); the derivation observed at the first "
     "boundary must be used consistently afterwards",
@@ -283,10 +285,146 @@ def run_case(ctx, rig, key_words, plan=None, actions=None, fail=None, typed=Fals
     return acts, boundaries
 
 
+# bulk sweeps: runs of N_STEPS wrapper steps per batch, screened on the device (see sweep())
+SWEEP_RUNS = {"Snake": 1024, "Game2048": 1024, "Knapsack": 2048, "Connector": 256, "Maze": 1024, "Minesweeper": 1024,
+              "Tetris": 512, "LevelBasedForaging": 256, "TSP": 2048, "Cleaner": 512, "CVRP": 2048, "GraphColoring": 1024,
+              "SlidingTilePuzzle": 1024, "RubiksCube": 512, "JobShop": 512, "FlatPack": 512, "MultiCVRP": 256,
+              "RobotWarehouse": 128, "Sokoban": 128, "Sudoku": 256, "MMST": 64}
+SWEEP_QUICK = ("Snake", "Game2048", "Knapsack", "Maze", "Minesweeper", "TSP", "Cleaner", "Tetris")
+
+
+def _tree_same(x, y):
+    """Device-side: all leaves equal (NaN == NaN), False when the structures differ."""
+    import jax
+    import jax.numpy as jnp
+
+    lx, tx = jax.tree_util.tree_flatten(x)
+    ly, ty = jax.tree_util.tree_flatten(y)
+    if tx != ty or any(jnp.shape(a) != jnp.shape(b) for a, b in zip(lx, ly)):
+        return jnp.asarray(False)
+    ok = jnp.asarray(True)
+    for a, b in zip(lx, ly):
+        a, b = jnp.asarray(a), jnp.asarray(b)
+        if jnp.issubdtype(a.dtype, jax.dtypes.prng_key):
+            a, b = jax.random.key_data(a), jax.random.key_data(b)
+        eq = a == b
+        if jnp.issubdtype(a.dtype, jnp.floating):
+            eq = eq | (jnp.isnan(a) & jnp.isnan(b))
+        ok = ok & jnp.all(eq)
+    return ok
+
+
+def sweep(rig, base_words, salt, n_runs, n_steps=N_STEPS):
+    """n_runs runs of n_steps wrapper steps in one vmapped scan: every wrapper step is compared on the device with the
+    reference composition (unwrapped step; on LAST reset with the derivation pinned for this rig).  Returns (first
+    mismatching step per run or -1, boundaries per run, key words, actions); mismatching runs are re-judged by
+    run_case on the host."""
+    import jax
+    import jax.numpy as jnp
+
+    b, flag = rig.b, rig.flag
+    if not hasattr(rig, "_sweep"):
+        env, W = b.env, rig.W
+        pol = envs.deep_policy(b, "legal_hash")
+        raw = envs._legal_hash_policy(None, b.act_dtype, b.amin, b.amax)
+        derive = {"split[0]": lambda k: jax.random.split(k)[0], "split[1]": lambda k: jax.random.split(k)[1],
+                  "fold_in(0)": lambda k: jax.random.fold_in(k, 0), "fold_in(1)": lambda k: jax.random.fold_in(k, 1)}[rig.viable[0]]
+
+        def one(key0, salt_, e):
+            key = jax.random.fold_in(key0, e)
+            ws, wts = W.reset(key)
+            chaotic = (e % 2) == 1
+
+            def body(c, i):
+                ws1, wts1, first, nb = c
+                a_legal = pol(env, ws1, wts1, i, salt_ + e)
+                a_raw = raw(env, ws1, wts1, i, salt_ + e + 7)
+                use_raw = chaotic & (jax.random.randint(jax.random.fold_in(key, i), (), 0, 5) == 0)
+                a = jnp.where(use_raw, a_raw, jnp.asarray(a_legal).astype(b.act_dtype)).astype(b.act_dtype)
+                s1, ts1 = env.step(ws1, a)
+                ws2, wts2 = W.step(ws1, a)
+                last = ts1.last()
+                s0, ts0 = env.reset(derive(s1.key))
+                sel = lambda x, y: jax.tree_util.tree_map(lambda p, q: jnp.where(last, p, q), x, y)  # noqa: E731
+                ok = _tree_same(ws2, sel(s0, s1)) & _tree_same(wts2.observation, sel(ts0.observation, ts1.observation))
+                ok = ok & (wts2.step_type == ts1.step_type) & _tree_same(wts2.reward, ts1.reward)
+                ok = ok & _tree_same(wts2.discount, ts1.discount)
+                ex = dict(wts2.extras) if isinstance(wts2.extras, dict) else wts2.extras
+                if flag:
+                    ok = ok & ("next_obs" in ex) & _tree_same(ex.get("next_obs"), ts1.observation)
+                    ex = {k: v for k, v in ex.items() if k != "next_obs"}
+                ok = ok & _tree_same(ex, dict(ts1.extras) if isinstance(ts1.extras, dict) else ts1.extras)
+                first = jnp.where((first < 0) & ~ok, i, first)
+                return (ws2, wts2, first, nb + last.astype(jnp.int32)), a
+
+            (_, _, first, nb), acts = jax.lax.scan(body, (ws, wts, jnp.asarray(-1, jnp.int32), jnp.asarray(0, jnp.int32)),
+                                                   jnp.arange(n_steps))
+            return first, nb, key, acts
+
+        rig._sweep = jax.jit(jax.vmap(one, in_axes=(None, None, 0)))
+    first, nb, keys, acts = rig._sweep(envs.make_key(base_words), jnp.asarray(salt, jnp.int32), jnp.arange(n_runs))
+    return np.asarray(first), np.asarray(nb), np.asarray(keys), np.asarray(acts)
+
+
+def run_sweep(item, seed):
+    from vf.hyp import st
+
+    ctx = Ctx(PROPERTY, item)
+    env, entry, flag = item["env"], item["entry"], item["flag"]
+    with ctx.guard(env, {"env": env, "entry": entry, "flag": flag, "stage": "construct", "stack": False}):
+        b = envs.bundle(env, entry)
+        rig = Rig(b, flag)
+        # pin the wrapper's key derivation with one ordinary host case first (its first boundary decides)
+        pin = {"env": env, "entry": entry, "flag": flag, "key": [1, 2], "actions": [], "stack": False, "typed": False}
+
+        def fail0(oracle, sig, msg):
+            ctx.fail(oracle, env, sig, f"{msg} [entry={entry} flag={flag} key=[1, 2]]", pin, size=10**6)
+
+        plan = {"style": "pin", "steps": [("legal", 3 * i + 1) if i % 5 else ("raw", 7 * i) for i in range(N_STEPS)]}
+        with ctx.guard(env, pin, size=10**6):
+            acts0, _ = run_case(ctx, rig, [1, 2], plan=plan, fail=fail0)
+            pin["actions"] = [a.tolist() for a in acts0]
+
+        def one(key, salt):
+            with ctx.guard(env, {"env": env, "entry": entry, "flag": flag, "key": list(key), "actions": [], "stage": "sweep"}):
+                first, nb, kws, acts = sweep(rig, key, salt, item["runs"])
+            ctx.evals(int(len(first)) * N_STEPS)
+            ctx.count("sweep_runs", len(first))
+            ctx.count("sweep_wrapper_steps", int(len(first)) * N_STEPS)
+            ctx.count("sweep_boundaries", int(nb.sum()))
+            ctx.nontrivial(env, entry, flag, "sweep", int(nb.sum()))
+            for e in np.flatnonzero(first >= 0)[:3]:
+                kw = [int(kws[e][0]), int(kws[e][1])]
+                case = {"env": env, "entry": entry, "flag": flag, "key": kw, "stack": False, "typed": False,
+                        "actions": [np.asarray(a).tolist() for a in acts[e]]}
+                before = sum(f["hits"] for f in ctx.failures.values())
+
+                def fail(oracle, sig, msg, case=case, kw=kw):
+                    ctx.fail(oracle, env, sig, f"{msg} [entry={entry} flag={flag} key={kw}]", case, size=len(case["actions"]))
+
+                with ctx.guard(env, case, size=10**6):
+                    run_case(ctx, rig, kw, actions=case["actions"], fail=fail)
+                ctx.count("sweep_flagged")
+                if sum(f["hits"] for f in ctx.failures.values()) == before:
+                    ctx.count("sweep_unconfirmed")
+            if len(ctx.samples) < 2:
+                ctx.sample({"env": env, "entry": entry, "flag": flag, "sweep_base_key": list(key), "salt": salt,
+                            "runs": int(len(first)), "boundaries": int(nb.sum())})
+
+        hyp.drive({"key": episodes.keys(), "salt": st.integers(0, 2**20)}, one, seed, item["batches"])
+    return ctx.result()
+
+
 def work_items(tier, flt):
     scale = (flt or {}).get("scale", 1.0)
     names = list(dict.fromkeys(QUICK_ENVS + list(WIN_QUICK))) if tier == "quick" else envs.ENV_NAMES
     items = []
+    for i, env in enumerate(envs.select_envs([e for e in SWEEP_RUNS if tier != "quick" or e in SWEEP_QUICK], flt)):
+        if flt and flt.get("entry") and SHORT_ENTRY[env] not in flt["entry"]:
+            continue
+        for flag in ((bool(i % 2),) if tier == "quick" else (False, True)):
+            items.append({"kind": "sweep", "env": env, "entry": SHORT_ENTRY[env], "flag": flag, "runs": SWEEP_RUNS[env],
+                          "batches": 1 if tier == "quick" else 3, "cost": 3})
     for env in envs.select_envs(names, flt):
         win = [e for e in WIN_ENTRY.get(env, []) if e != SHORT_ENTRY[env] and (tier != "quick" or env in WIN_QUICK)]
         es = [SHORT_ENTRY[env]] + win
@@ -326,6 +464,8 @@ def work_items(tier, flt):
 
 
 def run_item(item, seed, tier):
+    if item.get("kind") == "sweep":
+        return run_sweep(item, seed)
     ctx = Ctx(PROPERTY, item)
     env, entry, flag = item["env"], item["entry"], item["flag"]
     with ctx.guard(env, {"env": env, "entry": entry, "flag": flag, "stage": "construct", "stack": item.get("stack", False)}):
